@@ -712,7 +712,9 @@ def _run(ctx, res):
     # take only part of a large message), so that the receiver applies it
     # (device names are any text without a space: also names whose UTF-8 form is longer than their character count)
     NAMES = [None, (("dev0", "key0"), ("ger\u00e4t", "schl\u00fcssel")), (("\u03c3\u03c5\u03c3\u03ba\u03b5\u03c5\u03ae", "k"), ("dev1", "\u043a\u043b\u044e\u0447")),
-             (("a", "b"), ("\U0001f4e1", "\u20ac\u20ac"))]
+             (("a", "b"), ("\U0001f4e1", "\u20ac\u20ac")),
+             # only the ASCII space is excluded from a device name: other white space is part of it
+             (("dev0", "key0"), ("\u4f1a\u8b70\u5ba4\u3000A", "k\u00a0ey")), (("Salle\u00a0B", "k\tk"), ("dev\u20031", "key\x0b1"))]
     for n in (50, 700, 3000, 20000) + (() if ctx.quick else (80000, 400000)):
         for send_max, names in [(64, None), (512, None), (1460, None)] + [(1460, nm) for nm in NAMES[1:]] + [(64, NAMES[1])]:
             r = S.sender_probe(n, send_max=send_max, names=names)
